@@ -1642,3 +1642,7 @@ cdef class NNPS(NNPSBase):
         for name, arr in pa.properties.items():
             stride = pa.stride.get(name, 1)
             arr.c_align_array(indices, stride)
+
+        # The spatial order mixes ghost/remote particles with the local
+        # ones; the integrators rely on the real particles coming first.
+        pa.align_particles()
